@@ -35,12 +35,21 @@ pub fn spec(src: &str, off: usize) -> (u32, u32) {
 fn attributes(n: usize, rng: &mut Rng, rep: &mut Report) {
     let mut c = crate::cfg::Cfg::stock();
     c.mask |= 1 << crate::cfg::SOURCEPOS;
-    let md = c.build();
+    let stock_md = c.build();
     for i in 0..n {
+        // every third case: another plugin subset and registration ORDER (the position plugin may be registered first)
+        let sampled;
+        let (md, cdesc) = if i % 3 == 1 {
+            let mut c = crate::cfg::sample(rng, false, true);
+            c.mask |= 1 << crate::cfg::SOURCEPOS;
+            if c.order_seed == 0 { c.order_seed = 1 + rng.below(1000) as u64; }
+            sampled = c.build();
+            (&sampled, c.describe())
+        } else { (&stock_md, c.describe()) };
         let mut d = match i % 5 { 0 => gen_text(rng), 1 => crate::gen::doc::grammar_doc(rng).replace('\n', "\r"), 2 => format!("\u{feff}{}", crate::gen::doc::grammar_doc(rng)), _ => crate::gen::doc::any_doc(rng) };
         if i % 7 == 0 { d = d.chars().filter(|c| c.is_ascii()).collect::<String>().replace('\n', "\r"); }
         let tree = match crate::util::guarded(|| md.parse(&d)) { Ok(t) => t, Err(_) => continue };
-        let input = format!("doc={}", hexs(&d));
+        let input = format!("cfg[{}] doc={}", cdesc, hexs(&d));
         let mut bad = None;
         let mut k = 0;
         tree.walk(|node, _| {
